@@ -14,7 +14,7 @@ META = {
             "(closed/open/clockwise/missing ways, multipolygons with missing or open members, relations whose ids collide "
             "with way ids) and 343 files with three relations in sequence, each one of seven shapes (multipolygons of one "
             "to three polygons with and without inner loops, a route), checks ClosedWayTags and MembersPointAtAreas, and prints the expected world; each input is "
-            "ingested with ingest.BuildWorldFromOSM and as a compact index and lookup (tags, geometry, members), "
+            "ingested with ingest.BuildWorldFromOSM, from a .osm.pbf file written with osm.Writer, and as a compact index and lookup (tags, geometry, members), "
             "enumeration and search must equal the specification's.",
     "note": "Small scope: 4 nodes, 3 ways, 2 relations, 4 tag keys; relation member roles are not compared. The world "
             "builder's dropping of invalid features is part of the expectation (StaticWorld!ValidSubset). Trusted: TLC, "
@@ -41,9 +41,11 @@ def run(ctx):
             raise Inconclusive("%s exported nothing" % module)
         nexp += len(exported)
         rng.shuffle(exported)
-        for impl, cores in (("basic", 1), ("basic", 3), ("compact", 2)):
+        for impl, cores in (("basic", 1), ("basic", 3), ("basic-pbf", 2), ("compact", 2)):
             # a compact build costs ~3 s of CPU whatever its size
-            subset = exported[:cap_basic] if impl == "basic" else exported[:cap_compact]
+            subset = exported[:cap_basic] if impl.startswith("basic") else exported[:cap_compact]
+            if impl == "basic-pbf" and ctx.quick:
+                subset = subset[:150]
             if module == "MCOSMMap2" and impl == "basic" and cores == 3 and ctx.quick:
                 subset = subset[:100]
             for c in subset:
